@@ -45,6 +45,9 @@ INVARIANT BadHasReason
 CHECK_DEADLOCK FALSE
 """
 
+ALL_COMMANDS = ("append authenticate capability check close copy create delete examine expunge fetch id idle "
+                "list login logout lsub move namespace noop rename search select status store subscribe "
+                "unselect unsubscribe").split()
 ALLNEG = '{"stop", "garbage", "bad", "short"}'
 PLAN = {
     # exhaustive universes (name, constants), simulated derivations, mutations per text, e2e sample
@@ -143,6 +146,13 @@ def fn(ck, a):
             else:
                 take(r, "simulate")
         S = [sents[t] for t in sorted(order)]      # TLC's workers print in any order
+        if plan["exh"]:
+            # the generator must have produced every command of the language (a spec edit that
+            # silently loses a production must not pass as "no violation")
+            have = {s["ast"][2] for s in S if s["verdict"] == "OK"}
+            missing = set(ALL_COMMANDS) - have
+            if missing:
+                raise RuntimeError(f"CmdGrammar no longer generates: {sorted(missing)}")
 
         # 2. spec -> code
         nmut = plan["nmut"]
